@@ -212,6 +212,19 @@ func GenConfig(seed uint64, opt core.Options) *Config {
 			// finality resumes while scores are still high)
 			c.RecoverAfter = uint64(c.Slots) / 2
 		}
+	case "wide":
+		// committees of 17 to 70 members and sync subcommittees of 32: only SOME members are selected
+		// as aggregators, and which ones depends on the committee's size
+		c.Validators = int(c.SPE) * rng.Range(17, 70)
+		c.Slots = rng.Range(int(c.SPE)*2, int(c.SPE)*4)
+		c.Knobs["MAX_COMMITTEES_PER_SLOT"] = uint64(rng.Range(1, 2))
+		c.Knobs["TARGET_COMMITTEE_SIZE"] = 4
+		if rng.Bool() {
+			c.Knobs["SYNC_COMMITTEE_SIZE"] = 128
+		}
+		if c.Participation < 70 {
+			c.Participation = 70
+		}
 	case "churn":
 		// exit storm and deposit flood against a churn limit of 1-2: queues spanning epochs
 		c.Participation = 100
@@ -429,6 +442,7 @@ type World struct {
 	syncDom        map[common.Root][32]byte
 	syncMsgs       map[common.Root][]int // block root -> sync committee POSITIONS that signed
 	syncSigs       map[common.Root]map[int]common.BLSSignature
+	syncFor        map[common.Root]uint64 // block root -> the sync committee period whose committee signed
 	exits          []phase0.SignedVoluntaryExit
 	pslash         []phase0.ProposerSlashing
 	aslash         []phase0.AttesterSlashing
@@ -441,6 +455,7 @@ type World struct {
 	payloadN       uint64
 	eth1Vote       *common.Eth1Data
 	eth1VotePeriod uint64
+	forgeSlashed   bool // produce builds the block of a slashed proposer (never registered)
 
 	res *core.Result
 }
@@ -453,7 +468,7 @@ func fnvRoot(tag string, n uint64) (r common.Root) {
 func NewWorld(cfg *Config, res *core.Result) (*World, error) {
 	w := &World{cfg: cfg, spec: cfg.BuildSpec(), res: res, blocks: map[common.Root]*blockRec{},
 		syncMsgs: map[common.Root][]int{}, syncSigs: map[common.Root]map[int]common.BLSSignature{},
-		heldUntil: map[*phase0.Attestation]uint64{}, oddVote: map[*phase0.Attestation]common.Root{}, attDom: map[*phase0.Attestation][32]byte{}, attIn: map[*phase0.Attestation][]common.Root{}, syncDom: map[common.Root][32]byte{}, exited: map[int]bool{}, slashedV: map[int]bool{}, changedV: map[int]bool{}, deposits: &depositTree{}}
+		heldUntil: map[*phase0.Attestation]uint64{}, oddVote: map[*phase0.Attestation]common.Root{}, attDom: map[*phase0.Attestation][32]byte{}, attIn: map[*phase0.Attestation][]common.Root{}, syncDom: map[common.Root][32]byte{}, syncFor: map[common.Root]uint64{}, exited: map[int]bool{}, slashedV: map[int]bool{}, changedV: map[int]bool{}, deposits: &depositTree{}}
 	w.rng = core.NewRng(cfg.Seed ^ 0x5eed)
 	w.keys = newKeyring(cfg.Validators + 24) // (genesis validators first, then the depositors' keys)
 	w.spec.ExecutionEngine = &scriptedEngine{}
@@ -703,7 +718,13 @@ func (w *World) attest(box *stateBox, head *blockRec, slot uint64) {
 	}
 	// sync committee messages for this head (included by the next block)
 	if sc, ok := st.BeaconState.(common.SyncCommitteeBeaconState); ok {
+		// committees assigned to a slot sign for the slot before: in the last slot of a sync committee
+		// period it is the NEXT committee that signs (its messages go into the first block of its period)
 		cur, err := sc.CurrentSyncCommittee()
+		if w.syncPeriodOf(slot+1) != w.syncPeriodOf(slot) {
+			cur, err = sc.NextSyncCommittee()
+			w.res.Stat("probe_sync_messages_by_the_next_committee", 1)
+		}
 		if err == nil {
 			pubsV, _ := cur.Pubkeys()
 			pubs, _ := pubsV.Flatten()
@@ -735,6 +756,7 @@ func (w *World) attest(box *stateBox, head *blockRec, slot uint64) {
 			w.syncMsgs[head.root] = pos
 			w.syncSigs[head.root] = sigs
 			w.syncDom[head.root] = dom
+			w.syncFor[head.root] = w.syncPeriodOf(slot + 1)
 		}
 	}
 }
@@ -813,11 +835,15 @@ func (w *World) produce(parent *blockRec, slot uint64) (*blockRec, error) {
 	if pkey < 0 {
 		return nil, fmt.Errorf("no key for proposer %d", proposer)
 	}
+	slashedProposer := false
 	{
 		vals, _ := st.Validators()
 		pv, _ := vals.Validator(proposer)
 		if sl, _ := pv.Slashed(); sl {
-			return nil, errSlashedProposer // a slashed proposer cannot propose: the slot stays empty
+			if !w.forgeSlashed {
+				return nil, errSlashedProposer // a slashed proposer cannot propose: the slot stays empty
+			}
+			slashedProposer = true
 		}
 	}
 	fidx := w.forkIndexAt(epoch)
@@ -1146,7 +1172,10 @@ func (w *World) produce(parent *blockRec, slot uint64) (*blockRec, error) {
 		wantDom := domainFor(fork, w.gvr, common.DOMAIN_SYNC_COMMITTEE, common.Epoch(w.epochOf(prevSlot)))
 		// messages were signed at the parent's slot for the parent root; they are valid for this
 		// block if the previous slot lies in the same epoch/domain and the committee is the same
-		if pos, ok := w.syncMsgs[parent.root]; ok && w.syncDom[parent.root] == wantDom && w.epochOf(prevSlot) == w.epochOf(parent.slot) && w.samePeriod(parent.slot, slot) {
+		if pos, ok := w.syncMsgs[parent.root]; ok && w.syncDom[parent.root] == wantDom && w.epochOf(prevSlot) == w.epochOf(parent.slot) && w.syncFor[parent.root] == w.syncPeriodOf(slot) && w.forkIndexAt(w.epochOf(parent.slot)) >= 1 {
+			if w.syncPeriodOf(parent.slot) != w.syncPeriodOf(slot) {
+				w.res.Stat("probe_sync_aggregate_in_the_first_block_of_a_period", 1)
+			}
 			for _, p := range pos {
 				bits[p/8] |= 1 << (uint(p) % 8)
 				sigs = append(sigs, w.syncSigs[parent.root][p])
@@ -1266,6 +1295,25 @@ func (w *World) produce(parent *blockRec, slot uint64) (*blockRec, error) {
 	if err != nil {
 		return nil, err
 	}
+	if slashedProposer {
+		// a block the slashed proposer signs all the same (see forgeBySlashedProposer): well formed in
+		// every other respect; it declares the root of whatever zrnt makes of it, if anything
+		if err := common.PostSlotTransition(ctx, w.spec, post.epc, post.st, env, false); err == nil {
+			env.StateRoot = post.st.HashTreeRoot(tree.GetHashFn())
+		}
+		env.BlockRoot = env.BeaconBlockHeader.HashTreeRoot(tree.GetHashFn())
+		propDom := domainFor(fork, w.gvr, common.DOMAIN_BEACON_PROPOSER, common.Epoch(epoch))
+		env.Signature = w.keys.sign(pkey, signingRoot(env.BlockRoot, propDom))
+		signed, err := beacon.EnvelopeToSignedBeaconBlock(env)
+		if err != nil {
+			return nil, err
+		}
+		var buf bytes.Buffer
+		if err := signed.Serialize(w.spec, codec.NewEncodingWriter(&buf)); err != nil {
+			return nil, err
+		}
+		return &blockRec{root: env.BlockRoot, parent: parent.root, slot: slot, env: env, signed: signed, bytes: buf.Bytes(), digest: env.ForkDigest, kinds: kinds}, nil
+	}
 	if err := common.PostSlotTransition(ctx, w.spec, post.epc, post.st, env, false); err != nil {
 		refusal := fmt.Errorf("honest block refused at slot %d (fork %d, kinds %b): %v", slot, fidx, kinds, err)
 		// zrnt cannot give this block its state root; if the MODEL accepts it, the block still exists
@@ -1309,6 +1357,32 @@ func (w *World) produce(parent *blockRec, slot uint64) (*blockRec, error) {
 	return rec, nil
 }
 
+// forgeBySlashedProposer: the block the slot's proposer would have built, had it not been slashed -
+// signed by it all the same. The block is in no store, and what the builder noted while building it
+// (operations it believes included) is taken back.
+func (w *World) forgeBySlashedProposer(parent *blockRec, slot uint64) (*blockRec, error) {
+	cp := func(m map[int]bool) map[int]bool {
+		o := make(map[int]bool, len(m))
+		for k, v := range m {
+			o[k] = v
+		}
+		return o
+	}
+	exited, slashedV, changedV := cp(w.exited), cp(w.slashedV), cp(w.changedV)
+	held := make(map[*phase0.Attestation]uint64, len(w.heldUntil))
+	for k, v := range w.heldUntil {
+		held[k] = v
+	}
+	atts := append([]*phase0.Attestation(nil), w.atts...)
+	payloadN, vote, votePeriod := w.payloadN, w.eth1Vote, w.eth1VotePeriod
+	w.forgeSlashed = true
+	blk, err := w.produce(parent, slot)
+	w.forgeSlashed = false
+	w.exited, w.slashedV, w.changedV, w.heldUntil, w.atts = exited, slashedV, changedV, held, atts
+	w.payloadN, w.eth1Vote, w.eth1VotePeriod = payloadN, vote, votePeriod
+	return blk, err
+}
+
 // refusedHonest: zrnt refused a block the harness built to be valid; orphan is that block with the
 // state root computed by the model (it is in no store and has no zrnt post-state).
 type refusedHonest struct {
@@ -1318,10 +1392,9 @@ type refusedHonest struct {
 
 func (r *refusedHonest) Error() string { return r.err.Error() }
 
-// samePeriod: slots a and b are served by the same current sync committee
-func (w *World) samePeriod(a, b uint64) bool {
-	p := uint64(w.spec.EPOCHS_PER_SYNC_COMMITTEE_PERIOD)
-	return w.epochOf(a)/p == w.epochOf(b)/p && w.forkIndexAt(w.epochOf(a)) >= 1
+// syncPeriodOf: the sync committee period the slot lies in
+func (w *World) syncPeriodOf(slot uint64) uint64 {
+	return w.epochOf(slot) / uint64(w.spec.EPOCHS_PER_SYNC_COMMITTEE_PERIOD)
 }
 
 // notExiting: exit not initiated, and active for at least SHARD_COMMITTEE_PERIOD
